@@ -238,8 +238,12 @@ def check_pair(a, b):
         dd, tt1, tt2 = cdm.curveDistance(sa, sb)
     except Exception as e:
         return "curveDistance raised %s: %s (squared distance %r)" % (type(e).__name__, e, d2)
-    if abs(dd - d) > 1e-12 * max(1.0, d) or tt1 != t1 or tt2 != t2:
-        return "curveDistance differs from the finder's result"
+    # curveDistance works on copies translated so that the first operand starts at the origin (F31): its answer is the finder's on those copies
+    o = sa[0] * -1.0
+    d2o, t1o, t2o = cdm.MinimumCurveDistanceFinder(sa.translated(o), sb.translated(o)).minDist()
+    if abs(dd - math.sqrt(max(d2o, 0.0))) > 1e-12 * max(1.0, d) or tt1 != t1o or tt2 != t2o:
+        return "curveDistance differs from the finder's result on the operands moved to the first one's start"
+    d = dd
     ub = max(math.hypot(p[0] - q[0], p[1] - q[1]) for p in a for q in b)
     if d > ub * (1 + 1e-9) + 1e-9 * scale:
         return "distance %r exceeds the greatest distance between the curves' points (<= %r)" % (d, ub)
